@@ -8,7 +8,7 @@ if [ -f $D/demo.py ]; then
   (cd / && PYTHONPATH=$WT:/verif/pylib PYTHONHASHSEED=0 RENO_LOG_LEVEL=40 timeout 900 /venv/bin/python $D/demo.py > /tmp/seed_demo_$$.log 2>&1); echo "demo-on-mutant rc=$?"
   (cd / && PYTHONPATH=/repo:/verif/pylib PYTHONHASHSEED=0 RENO_LOG_LEVEL=40 timeout 900 /venv/bin/python $D/demo.py > /tmp/seed_demo0_$$.log 2>&1); echo "demo-on-head rc=$?"
 fi
-cd /verif && VERIF_REPO=$WT timeout 2400 ./check $ID --tier quick > /tmp/seed_check_$$.log 2>&1; rc=$?
+cd /verif && VERIF_EVIDENCE_DIR=/tmp/seed_evidence_$$ VERIF_REPO=$WT timeout 2400 ./check $ID --tier quick > /tmp/seed_check_$$.log 2>&1; rc=$?
 echo "check-on-mutant rc=$rc"; grep -E "^VIOLATION|^KNOWN|^\[C" /tmp/seed_check_$$.log | cut -c1-250
 git -C /repo worktree remove --force $WT
-rm -f /tmp/seed_demo_$$.log /tmp/seed_demo0_$$.log /tmp/seed_check_$$.log
+rm -rf /tmp/seed_evidence_$$; rm -f /tmp/seed_demo_$$.log /tmp/seed_demo0_$$.log /tmp/seed_check_$$.log
